@@ -107,6 +107,11 @@ type env struct {
 	faults    bool // fault region: transient open failures of one source file during a rollup job
 	restarts  bool // restart region: a crashed rollup run is followed by 1-3 restarts, then rollup again
 	zoneYear  int  // zone region: the year the zone's transitions were taken for
+	// commit-fault witness: the commit of the first record of this kind fails (manifest write error)
+	failKind  byte
+	onceKey   string
+	failedAt  int
+	failedRec *rec
 	armFault  *fkey
 	attempted map[fkey]bool // source files a rollup job may have opened already (reader cached)
 	drainKey  string
@@ -278,7 +283,16 @@ func (e *env) onCommit(storePath, family string, _ version.FamilyID, logs []vers
 			e.imaged = true
 		}
 	}
-	e.cur = append(e.cur, e.canon(storePath, family, logs))
+	r := e.canon(storePath, family, logs)
+	if e.failKind != 0 && r.kind == e.failKind && e.failedAt < 0 {
+		// this commit is going to fail: arm the manifest writer of that store; the record is not committed
+		manifestFault.Lock()
+		manifestFault.dir, manifestFault.armed = storePath, true
+		manifestFault.Unlock()
+		e.failedAt, e.failedRec = len(e.cur), &r
+		return
+	}
+	e.cur = append(e.cur, r)
 }
 
 func sortTrips(t [][3]int64) {
@@ -776,7 +790,11 @@ func (e *env) checkOnce() {
 	for k, per := range e.contributions() {
 		for iv, n := range per {
 			if n > 1 {
-				e.c.Fail("merged-twice", fmt.Sprintf("source file %d.%d was merged %d times into target interval %d", k.h, k.file, n, iv))
+				key := "merged-twice"
+				if e.onceKey != "" {
+					key = e.onceKey
+				}
+				e.c.Fail(key, fmt.Sprintf("source file %d.%d was merged %d times into target interval %d", k.h, k.file, n, iv))
 			}
 		}
 	}
@@ -1648,6 +1666,10 @@ func (a area) Run(c *core.Ctx) error {
 				err = e.storeCase()
 			case i == 4:
 				err = e.compactionWitness()
+			case i == 12:
+				err = e.commitFaultWitness('S', "source-commit-failure-merges-twice")
+			case i == 20:
+				err = e.commitFaultWitness('T', "target-commit-failure-loses-file")
 			case i%8 == 4:
 				e.faults = true
 				err = e.storeCase()
